@@ -1,4 +1,75 @@
-(* C02 placeholder, replaced below *)
-From RV Require Import Model.Mapping.
-Theorem C02_placeholder : True. Proof. exact I. Qed.
-Eval cbv in "ASSUMPTIONS-OF C02_placeholder"%string. Print Assumptions C02_placeholder.
+(* C02  Layered parameters deep-merge.  Statements only.
+   Proved here: the kind table of Value::merge on the model (one merge step), the same table
+   for the specification Spec/DeepMerge.v, and totality of the mapping merge (no panic).
+   The refinement "render of a reference-free stack = deep_merge of the stack" is stated in
+   Proofs/Refinement.v (see DESIGN section 5, C02) and exercised as oracle on every run. *)
+From RV Require Import Model.Mapping Model.Yaml Spec.DeepMerge Proofs.MappingFacts Proofs.MergeFacts Proofs.DeepMergeFacts.
+
+Theorem C02_null_replaces_anything : forall ck self, value_merge ck self VNull = Ok VNull.
+Proof. exact merge_null_replaces. Qed.
+Eval cbv in "ASSUMPTIONS-OF C02_null_replaces_anything"%string. Print Assumptions C02_null_replaces_anything.
+
+Theorem C02_anything_replaces_null :
+  forall ck other, is_vlist other = false -> value_merge ck VNull other = Ok other.
+Proof. exact merge_over_null. Qed.
+Eval cbv in "ASSUMPTIONS-OF C02_anything_replaces_null"%string. Print Assumptions C02_anything_replaces_null.
+
+Theorem C02_scalar_replaces_scalar :
+  forall ck self other, scalar self -> scalar other -> value_merge ck self other = Ok other.
+Proof. exact merge_scalar_replaces. Qed.
+Eval cbv in "ASSUMPTIONS-OF C02_scalar_replaces_scalar"%string. Print Assumptions C02_scalar_replaces_scalar.
+
+Theorem C02_lists_concatenate : forall ck a b, value_merge ck (VSeq a) (VSeq b) = Ok (VSeq (a ++ b)).
+Proof. exact merge_lists_append. Qed.
+Eval cbv in "ASSUMPTIONS-OF C02_lists_concatenate"%string. Print Assumptions C02_lists_concatenate.
+
+Theorem C02_mappings_merge_key_by_key :
+  forall ck a b, value_merge ck (VMap a) (VMap b) = rmap VMap (mapping_merge a b).
+Proof. exact merge_maps. Qed.
+Eval cbv in "ASSUMPTIONS-OF C02_mappings_merge_key_by_key"%string. Print Assumptions C02_mappings_merge_key_by_key.
+
+(** type conflicts are errors naming the parameter, never resolved in favour of either side *)
+Theorem C02_conflict_on_mapping :
+  forall ck a other, is_null other = false -> is_vlist other = false -> is_mapping other = false ->
+    value_merge ck (VMap a) other = Err (EMerge ck (variant other) "mapping").
+Proof. exact merge_conflict_on_map. Qed.
+Eval cbv in "ASSUMPTIONS-OF C02_conflict_on_mapping"%string. Print Assumptions C02_conflict_on_mapping.
+
+Theorem C02_conflict_on_list :
+  forall ck a other, is_null other = false -> is_vlist other = false -> is_sequence other = false ->
+    value_merge ck (VSeq a) other = Err (EMerge ck (variant other) "sequence").
+Proof. exact merge_conflict_on_seq. Qed.
+Eval cbv in "ASSUMPTIONS-OF C02_conflict_on_list"%string. Print Assumptions C02_conflict_on_list.
+
+Theorem C02_conflict_on_scalar :
+  forall ck self other, scalar self -> is_mapping other || is_sequence other = true ->
+    value_merge ck self other = Err (EMerge ck (variant other) (variant self)).
+Proof. exact merge_conflict_on_scalar. Qed.
+Eval cbv in "ASSUMPTIONS-OF C02_conflict_on_scalar"%string. Print Assumptions C02_conflict_on_scalar.
+
+(** merging mappings never panics: the only failure is a constant-key error *)
+Theorem C02_mapping_merge_total :
+  forall o m, (exists m', mapping_merge m o = Ok m') \/ (exists k, mapping_merge m o = Err (EConst k)).
+Proof. exact merge_total. Qed.
+Eval cbv in "ASSUMPTIONS-OF C02_mapping_merge_total"%string. Print Assumptions C02_mapping_merge_total.
+
+(** the specification's kind table (the oracle of the correspondence run) *)
+Theorem C02_spec_conflicts :
+  (forall s y v, scalar_of y = Some v -> y <> YNull -> combine (AMaps s) y = SErr SConflict) /\
+  (forall s l, combine (AMaps s) (YSeq l) = SErr SConflict) /\
+  (forall l0 y v, scalar_of y = Some v -> y <> YNull -> combine (ASeq l0) y = SErr SConflict) /\
+  (forall l0 es, combine (ASeq l0) (YMap es) = SErr SConflict) /\
+  (forall v0 es, combine (AScalar v0) (YMap es) = SErr SConflict) /\
+  (forall v0 l, combine (AScalar v0) (YSeq l) = SErr SConflict).
+Proof. exact spec_conflicts. Qed.
+Eval cbv in "ASSUMPTIONS-OF C02_spec_conflicts"%string. Print Assumptions C02_spec_conflicts.
+
+(** Non-vacuity: three layers, nested map, list, null in the middle, a conflict hidden under an
+    override: the specification gives a value. *)
+Example C02_nonvacuous :
+  exists v,
+    deep_merge 10
+      [ YMap [(YStr "a", YMap [(YStr "x", YNum (NInt 1))]); (YStr "l", YSeq [YNum (NInt 1)]); (YStr "c", YMap [])];
+        YMap [(YStr "a", YNull); (YStr "l", YSeq [YNum (NInt 2)]); (YStr "c", YStr "conflict")];
+        YMap [(YStr "a", YMap [(YStr "y", YBool true)]); (YStr "~c", YNum (NInt 3))] ] = SOk v.
+Proof. eexists. vm_compute. reflexivity. Qed.
